@@ -12,6 +12,12 @@ input class "on the strike": markets (float32, the default dtype, and float64) w
 fraction (0.9, 0.95, 1.03, 1.05, 1.1, 1.2; init_state=(strike,)), every parameter taken from the derivative / the hedger's features:
 zero-volatility paths resting on the strike (European price 0, delta +-1/2, American binary price 1, lookback price 0) and ordinary
 paths started on the strike (an American binary struck at the initial spot pays 1 on every path: price at the last step = payoff).
+input class "partial argument lists": a module bound to a simulated derivative (BlackScholes(d) / BS*.from_derivative(d), all four kinds) called
+with SOME arguments (time_to_maturity = zeros, volatility = zeros, an explicit log-moneyness on a zero-volatility market, a negative time to
+maturity / volatility) while the rest is acquired from the derivative: price = certain payoff, delta = limit, negatives raise (op "bs").
+input class "puts at the edge through the hedgers": WhalleyWilmott(d)(input) at t = 0 / v = 0 away from the strike returns the limiting delta
+(call 1 / 0, put -1 / 0, binaries 0) whatever the previous hedge (op "ww_module"); BlackScholes / WhalleyWilmott hedgers on BrownianStock(sigma=0)
+paths away from the strike hold the limiting delta at every step (deterministic corpus of calls and puts, in / out of the money, cost 0 / > 0).
 """
 import math
 from fractions import Fraction as F
@@ -907,4 +913,7 @@ def check(ctx):
              "delta, gamma, vega, theta), module methods, module(input), Hedger(module)(input), WhalleyWilmott forward / width, and as the state of the derivative "
              "(sigma < 0, dt < 0, a perturbed Hedger.get_input) through price() / delta() / gamma(), compute_hedge, compute_pl: all raise ValueError (the offending "
              "row also to ops ww_module / bs); corpus of signed zeros (t or v = -0.0 is zero); "
+             "partial argument lists (t = zeros / v = zeros / explicit log-moneyness on a zero-volatility market / a negative t or v passed, the rest acquired) to "
+             "modules bound to a simulated derivative: certain payoff, limiting delta, ValueError; WhalleyWilmott(d)(input) and BS / WW hedgers on zero-volatility "
+             "paths away from the strike = the limiting delta for calls and puts (-1 / 0) and binaries (0); "
              "every case non-trivial; distinct = sha1 of canonical case")
